@@ -14,7 +14,7 @@ def intOps : Ops Int :=
     mono := fun l => l.foldl (fun acc (v, p) => acc * v ^ p) 1
     cos := id, sin := id, atan2 := fun s _ => s
     sk := fun _ _ v => v, skInv := fun _ _ v => v
-    rbf := fun _ _ _ => 0, kern := fun _ _ _ => 0 }
+    rbf := fun _ _ _ _ => 0, kern := fun _ _ _ _ => 0 }
 
 def ratOps : Ops Rat :=
   { one := 1
@@ -22,7 +22,7 @@ def ratOps : Ops Rat :=
     mono := fun l => l.foldl (fun acc (v, p) => acc * v ^ p) 1
     cos := id, sin := id, atan2 := fun s _ => s
     sk := fun _ _ v => v, skInv := fun _ _ v => v
-    rbf := fun _ _ _ => 0, kern := fun _ _ _ => 0 }
+    rbf := fun _ _ _ _ => 0, kern := fun _ _ _ _ => 0 }
 
 def sexp (head : String) (args : List String) : String :=
   "(" ++ " ".intercalate (head :: args) ++ ")"
@@ -36,8 +36,8 @@ def strOps : Ops String :=
     atan2 := fun s c => sexp "atan2" [s, c]
     sk := fun id j v => sexp "sk" [toString id, toString j, v]
     skInv := fun id j v => sexp "skinv" [toString id, toString j, v]
-    rbf := fun id c row => sexp "rbf" (toString id :: toString c :: row)
-    kern := fun id c row => sexp "kern" (toString id :: toString c :: row) }
+    rbf := fun id c x u => sexp "rbf" (toString id :: toString c :: (x ++ u))
+    kern := fun id c x u => sexp "kern" (toString id :: toString c :: (x ++ u)) }
 
 /-- merge of two ascending duplicate-free lists -/
 def unionAsc : List Nat → List Nat → List Nat
@@ -58,8 +58,8 @@ def depOps : Ops (List Nat) :=
     cos := id, sin := id
     atan2 := unionAsc
     sk := fun _ _ v => v, skInv := fun _ _ v => v
-    rbf := fun _ _ row => unions row
-    kern := fun _ _ row => unions row }
+    rbf := fun _ _ x u => unions (x ++ u)
+    kern := fun _ _ x u => unions (x ++ u) }
 
 def showDep (d : List Nat) : String :=
   if d.isEmpty then "-" else ",".intercalate (d.map toString)
